@@ -314,6 +314,9 @@ func c16OtherOps(c *core.Ctx) {
 		{name: "ByIndices(1)", ok: func(s []int) bool { return len(s) >= 2 }, run: func(d *tensor.Dense) (tensor.Tensor, error) { return tensor.ByIndices(d, idx(), 1) }},
 		{name: "Norm(2)", ok: func(s []int) bool { return len(s) == 2 }, run: func(d *tensor.Dense) (tensor.Tensor, error) { return d.Norm(tensor.Norm(2)) }},
 		{name: "Norm(1,axis0)", ok: func(s []int) bool { return len(s) >= 2 }, run: func(d *tensor.Dense) (tensor.Tensor, error) { return d.Norm(tensor.Norm(1), 0) }},
+		{name: "Norm(-1,axes01)", ok: func(s []int) bool { return len(s) == 2 }, run: func(d *tensor.Dense) (tensor.Tensor, error) { return d.Norm(tensor.Norm(-1), 0, 1) }},
+		{name: "Norm(1,axes01)", ok: func(s []int) bool { return len(s) == 2 }, run: func(d *tensor.Dense) (tensor.Tensor, error) { return d.Norm(tensor.Norm(1), 0, 1) }},
+		{name: "Norm(inf,axis1)", ok: func(s []int) bool { return len(s) >= 2 }, run: func(d *tensor.Dense) (tensor.Tensor, error) { return d.Norm(tensor.InfNorm(), 1) }},
 		{name: "Norm(fro)", ok: func(s []int) bool { return len(s) == 2 }, run: func(d *tensor.Dense) (tensor.Tensor, error) { return d.Norm(tensor.FrobeniusNorm()) }},
 		{name: "Narrow", ok: func(s []int) bool { return len(s) >= 2 }, run: func(d *tensor.Dense) (tensor.Tensor, error) { return tensor.Narrow(d, 1, 1, 2) }},
 		{name: "RepeatReuse(0, dest F)", ok: func(s []int) bool { return len(s) >= 2 }, run: repeatInto(true, 0), ref: repeatInto(false, 0)},
@@ -374,7 +377,7 @@ func c16OtherOps(c *core.Ctx) {
 				if !o.ok(shape) {
 					continue
 				}
-				vals := gen.SmallInts(t, n, c.Rng, 1, 9)
+				vals := gen.SmallInts(t, n, c.Rng, -9, 9)
 				ref, pr := ewBuild(c, t, shape, gen.LC, vals, nil, nil)
 				if pr != "" {
 					continue
@@ -392,6 +395,7 @@ func c16OtherOps(c *core.Ctx) {
 					}
 					return o.run(d)
 				}
+				ref.before()
 				wp, _ := core.Catch(func() {
 					if o.ref != nil {
 						want, werr = o.ref(ref.op.D)
@@ -399,6 +403,13 @@ func c16OtherOps(c *core.Ctx) {
 						want, werr = call(ref.op.D, ref2.op.D)
 					}
 				})
+				ref.observe()
+				if !ref.untouched() {
+					// (the row-major run is the reference, but an operation that changes its operand is nobody's reference)
+					c.Violation(core.Sig("other", o.name, gen.LC, "operand-changed"), fmt.Sprintf("other/%s/%s/%s/%s", o.name, gen.LC, shapeStr(shape), model.Name(t)),
+						map[string]interface{}{"operation": o.name, "layout": gen.LC, "shape": shape, "type": model.Name(t), "values": short(vals)}, "operand untouched", fmt.Sprint(ref.changed, ref.metaDif))
+					continue
+				}
 				if wp || werr != nil {
 					continue // the operation does not serve this shape at all
 				}
